@@ -26,6 +26,7 @@ type Engine struct {
 	funcs     map[string]*ssa.Function
 	funcRefs  map[string]int
 	gwCache   map[*ssa.Package][]string
+	replayHints map[string]map[string]string
 }
 
 func loadEngine(dir string, patterns []string, tags string, overlay map[string][]byte) (*Engine, error) {
@@ -271,7 +272,12 @@ func (e *Engine) verifyFunc(key string) (*VC, error) {
 				vc.errorf("ensures %s: %v", en.Name(), err)
 				continue
 			}
+			nb := len(vc.obls)
 			vc.oblige("post", fmt.Sprintf("postcondition at return %d: %s", ri, en.Name()), en.Props, pos, r.reach, t)
+			if len(vc.obls) > nb {
+				vc.obls[len(vc.obls)-1].retHeap = r.heap
+				vc.obls[len(vc.obls)-1].retVals = r.vals
+			}
 		}
 		vc.frameCheck(fr, c, st, ri, pos)
 		if c.HasPropagates {
